@@ -6,4 +6,6 @@ def recursive : List (String × String) := [("_build.py", "Builder.discover"), (
 
 def introFacts : List (String × Bool) := [("intros_returns_fresh_outputs", true), ("intro_results_from_intros", true), ("intro_uses_intros", true), ("unsafe_cast_writes_fresh", true)]
 
+def processDependent : List (String × String × String) := []
+
 end Generated.FrontFacts
